@@ -104,7 +104,7 @@ PLAN = {
     "C07": dict(
         title="Activations: defined function, exact derivative, total on finite floats",
         level="proof",
-        verus=["C07_activations.rs", "C07_softmax.rs"],
+        verus=["C07_activations.rs", "C07_activation_whole.rs", "C07_softmax.rs"],
         kani=True,
         undecided_clauses=[
             "soft-max shift invariance: not decided (under rounding (v+c)-max(v+c) need not equal v-max(v); the subtraction of the maximum "
@@ -308,15 +308,17 @@ MANIFEST_TEXT = {
     ),
     "C07": dict(
         category="proof",
-        technique="Kani harnesses over all finite f32 bit patterns through the real Function::forward/backward + Verus formula contracts on the 16 closure bodies",
+        technique="Kani harnesses over all finite f32 bit patterns through the real Function::forward/backward + Verus formula contracts on the 16 closure bodies and on the 8 WHOLE forward/backward functions (every size, both ranks)",
         design_ref="DESIGN.md §5 C07",
         text="Value clauses (defined function, derivative values, never NaN/inf, sigmoid in [0,1], tanh in [-1,1], shape kept) are decided "
              "by loop-free-in-the-data Kani harnesses through the real Function::forward/backward on singleton tensors of both ranks for "
              "every finite f32 bit pattern - complete over the element domain, with libm functions replaced by contract stubs. Verus "
              "proves, for any element of any shape, that both rank copies of each forward/backward closure compute one documented formula "
-             "(backward = textbook derivative of forward). Soft-max is bounded in vector length.",
+             "(backward = textbook derivative of forward), and - units *.forward.whole / *.backward.whole (R56) - that the WHOLE forward and backward of ReLU, LeakyReLU, "
+             "Sigmoid and Tanh return, for a flat tensor of any length and a 3-D tensor of any size, a tensor of the same rank and nesting lengths whose every element is that "
+             "formula of the input element at the same position, with the shape field the code reports (other ranks panic: outside the stated domain). Soft-max is bounded in vector length.",
         note="libm contracts (F2) assumed; F1 uninterpreted floats in Verus; derivative table is mathematics (F3); iterator chains "
-             "covered for singleton/small shapes only; soft-max: the formula (shifted exponentials over their in-order sum) is proved for every length in Verus (unit softmax.forward), its value claims are bounded (n = 2); shift invariance under rounding undecided.",
+             "covered for every size in Verus (R56: extend-map -> index loop) and for singleton/small shapes in Kani; soft-max: the formula (shifted exponentials over their in-order sum) is proved for every length in Verus (unit softmax.forward), its value claims are bounded (n = 2); shift invariance under rounding undecided.",
     ),
     "C09": dict(
         category="proof",
